@@ -69,6 +69,11 @@ def model_builders(shared=None):
         w = VectorVariable("v", n, lb=alt(v, "bounds", 0.0, 1.0), ub=2.0, domain=alt(v, "domain", "continuous", "integer"))
         c = data("lp.c", np.arange(1.0, n + 1) * alt(v, "data", 1.0, -2.0))
         e = c @ w
+        if v == "poison":
+            # an unrelated earlier model with degenerate DATA: a constant sub-expression that divides by zero / is 0 * inf
+            from optyx.core.expressions import Constant
+
+            e = e + (Constant(1.0) / 0.0) * w[0] + ((Constant(0.0) / 0.0) * 2) * w[1]
         con = w.sum() >= 1
         return dict(e=e, cons=[con], vars=list(w), P=Problem().minimize(e).subject_to(con), roots=[w[0]])
 
@@ -349,6 +354,10 @@ def observe(built):
         rec("roots", lambda: [[repr(float(np.asarray(compiler.compile_expression(r, V)(p)))) for p in pts] for r in built["roots"]])
         rec("root-gradients", lambda: [np.asarray(compiler.compile_gradient(r, V)(pts[0]), dtype=float).tolist() for r in built["roots"]])
         P = built["P"]
+        # process-global modes an earlier model could have left behind
+        import sys as _sys
+
+        rec("process-globals", lambda: (sorted(np.geterr().items()), _sys.getrecursionlimit()))
         rec("variables", lambda: [v.name for v in P.variables])
         rec("bounds", lambda: [tuple(b) for b in P.get_bounds()])
         for m in ("auto",) if built.get("lean") else ("auto", "SLSQP"):
@@ -410,7 +419,8 @@ LEAN_MODELS = {"large-two-containers"}
 
 
 def menu(model=None):
-    variants = VARIANTS + (("view",) if model == "views" else ()) + (("dense",) if model == "bare-power" else ())
+    variants = (VARIANTS + (("view",) if model == "views" else ()) + (("dense",) if model == "bare-power" else ())
+                + (("poison",) if model == "lp" else ()))
     m = [("adv", v, a) for v in variants for a in ACTIONS]
     m += [("flood", "compiles"), ("flood", "gradients")]
     m += [("reuse", v, a) for v in VARIANTS for a in REUSE_ACTIONS]
@@ -434,7 +444,7 @@ def histories(tier, model=None):
     for a in M:
         yield (a,)
     if tier == "quick":
-        core = [x for x in M if x[0] == "flood" or (x[0] == "adv" and x[1] in ("same", "pvalue", "data", "view", "dense") and x[2] in ("compile", "roots", "solve-auto"))
+        core = [x for x in M if x[0] == "flood" or (x[0] == "adv" and x[1] in ("same", "pvalue", "data", "view", "dense", "poison") and x[2] in ("compile", "roots", "solve-auto"))
                 or x == ("adv", "data", "solve-options") or x == ("shared", "data", "compile")
                 or x in (("reuse", "data", "gradient"), ("reuse", "pvalue", "degree"))]
         for a in core:
